@@ -64,8 +64,8 @@ def set_force(rng, scn, mode):
                     t["force-file-write"] = pv if mode == "iface-same" else (not pv)
 
 
-OUTSIDE_SRC = ("parent-link", "link-dangling")     # only for outputs that are not in a source package directory
-LINK_STATES = ["link-file", "link-file-outside", "link-dangling", "link-dir", "parent-link"]
+OUTSIDE_SRC = ("parent-link", "link-dangling", "link-devfull")     # only for outputs that are not in a source package directory
+LINK_STATES = ["link-file", "link-file-outside", "link-dangling", "link-dir", "parent-link"] + (["link-devfull"] if P.devfull_ok() else [])
 # every third scenario has no failing stage and puts ONE output into a state taken round-robin from this
 # list, with force-file-write alternately true and false: each (state, force) pair occurs in every run
 FOCUS = [(st, f) for f in (True, False) for st in ["absent", "same", "stale", "longer", "user", "dir"] + LINK_STATES]
@@ -95,6 +95,8 @@ def put_state(s, rel, st, pkgname):
     elif st == "link-dir":           # ... to a directory
         s["init"]["m/linktargets/d%d/keep.txt" % n] = b"inside the directory a symlink at an output path points to\n"
         s["links"][rel] = os.path.relpath("m/linktargets/d%d" % n, d)
+    elif st == "link-devfull":       # ... to /dev/full: opening succeeds, every write fails with ENOSPC
+        s["links"][rel] = "/dev/full"
     elif st == "parent-link":        # the directory that holds the output is a symlink to another directory
         s["init"]["m/linktargets/pd%d/keep.txt" % n] = b"inside the real output directory\n"
         s["links"][d] = os.path.relpath("m/linktargets/pd%d" % n, d.rsplit("/", 1)[0])
@@ -154,7 +156,7 @@ def gen_c10(rng, i):
         else:
             st = rng.choice(STATES + (LINK_STATES[:1] + LINK_STATES[2:4] if rng.random() < 0.3 else []))
         if st in OUTSIDE_SRC and rel.rsplit("/", 1)[0] in ["m/" + n for n in s["pkgs"]]:
-            st = "link-file"        # a dangling link / a linked directory inside a source package would break `go list`
+            st = "link-file"        # a dangling link / a link to a device inside a source package would break `go list`
         if st == "parent-link":
             d = rel.rsplit("/", 1)[0]
             if any(r2 != rel and (r2.startswith(d + "/") or r2 in states) and r2.rsplit("/", 1)[0] == d for r2, _ in outs[:k]):
